@@ -11,8 +11,8 @@ MANIFEST = dict(
     text="Coq theorems, unbounded in the diagram, the level and the evaluation point.  C18_landscape_equals_definition: for every diagram "
          "(birth <= death, coordinates inside the sentinels, births not closer than the 5e-6 tolerance unless equal) the transcription of "
          "construct_persistence_landscape_from_barcode (sort, characteristic-point sweep with all tie branches, std::unique) evaluated by the "
-         "transcription of compute_value_at_a_given_point (bisection) yields lambda_k(t) for all k, t.  C18_landscape_sum / _difference / _scale / _abs_difference: "
-         "the transcribed operator+, operator- (merge of different breakpoint lists), operator*(double) and abs(first-second) on constructed landscapes, read back by the "
+         "transcription of compute_value_at_a_given_point (bisection) yields lambda_k(t) for all k, t.  C18_landscape_sum / _difference / _scale / _average / _abs_difference: "
+         "the transcribed operator+, operator- (merge of different breakpoint lists), operator*(double), compute_average and abs(first-second) on constructed landscapes, read back by the "
          "bisection, are the pointwise operations on lambda_k.  lambda_k is non-negative, antitone in k, permutation invariant; a PL function is "
          "determined by its values at its breakpoints; the transcribed abs() is pointwise; sup, L1 and L2 functionals: symmetric, zero on equal arguments, "
          "triangle inequality (sup, L1, L2 via Cauchy-Schwarz); inner product symmetric and bilinear; the unrepaired grid evaluation is refuted "
@@ -20,7 +20,7 @@ MANIFEST = dict(
          "inputs (random + exhaustive small lattices + AddressSanitizer variant): breakpoints, values at every breakpoint/midpoint/outside for all "
          "levels, operations, integrals, distances, inner products, grid form at and between grid points.",
     note="Trusted: Coq kernel, extraction + OCaml driver, the hand transcription (validated by the differential run), g++/libm pow. "
-         "Not proved (kept as *_full definitions, compared per input): the algorithmic distances / inner product / average equal the spec "
+         "Not proved (kept as *_full definitions, compared per input): the algorithmic distances / inner product equal the spec "
          "integrals; grid construction = lambda at grid points.  The closed forms seg_abs/seg_sq/seg_prod are taken as the "
          "integrals (no real analysis in the development).  L2 distances (pow(.,1/2)) and inner products off the 3-divisible lattice are the only "
          "float comparisons (relative 2^-40 / absolute 1e-7).",
